@@ -294,5 +294,10 @@ pub fn phase(args: &Args, master: &Path) -> Report {
     );
     r.bound("cases", n);
     r.bound("max_size", *sizes(args.thorough).last().unwrap());
+    // second part of the phase: read_to_end / read_to_string into caller-supplied buffers
+    let r2 = crate::readend::run_all(args, master);
+    r.merge(r2);
+    r.rule.push_str(" ");
+    r.rule.push_str(&crate::readend::rule(args.thorough));
     r
 }
